@@ -186,7 +186,106 @@ def hyp_job(job):
     return acc
 
 
+# ---------------------------------------------------------------------------------------------
+# inverter classes: only the exact reason ILLEGAL DATA ADDRESS means "this register block is not supported"
+# ---------------------------------------------------------------------------------------------
+class _ExcAt:
+    """Responder wrapper: the k-th request after arming is answered with a Modbus exception frame of the given code."""
+
+    def __init__(self, inner, k, code):
+        self.inner, self.k, self.code, self.n = inner, k, code, None
+
+    def respond(self, data):
+        if self.n is not None:
+            self.n += 1
+            if self.n - 1 == self.k:
+                return self.inner.exception(data, self.code)
+        return self.inner.respond(data)
+
+    def __getattr__(self, name):
+        return getattr(self.inner, name)
+
+
+API_CFGS = [
+    {"family": "ET", "serial": b"925KETT000W00001", "rated_power": 25000, "refuse": [], "battery_mode": 1, "tcp": False},
+    {"family": "ET", "serial": b"9010KETU000W0000", "rated_power": 30000, "refuse": [], "battery_mode": 1, "tcp": True},
+    {"family": "ET", "serial": b"9010KETU000W0000", "rated_power": 10000, "refuse": [], "battery_mode": 1, "tcp": False},
+    {"family": "ET", "serial": b"929K9ETT00W00001", "rated_power": 29900, "refuse": ["meter_ext2"], "battery_mode": 1, "tcp": True},
+    {"family": "ET", "serial": b"95000EHU000W0001", "rated_power": 15000, "refuse": ["meter_ext", "battery2"], "battery_mode": 2, "tcp": False},
+]
+# DT is not part of this sweep: DT.read_runtime_data() gives up its optional meter block after ANY failure of that read (it
+# does not look at the reason at all), so "only ILLEGAL DATA ADDRESS disables a block" is an ET statement (DESIGN.md D14).
+
+
+def api_case(acc: Acc, case):
+    """Request k of a read_runtime_data() poll is answered with exception code c != 2: the call must fail with
+    RequestRejectedException(reason(c)) - it must not be taken for 'block not supported' - and the following clean poll
+    must report exactly the keys a poll reported before the incident."""
+    from goodwe.exceptions import RequestRejectedException
+    from vlib import siminv
+    from vlib.harness import run_sync
+    acc.case()
+    cfg, k, code = case["cfg"], case["k"], case["code"]
+    acc.nontrivial("api", repr(sorted(cfg.items())), k, code)
+    inv, sim = siminv.build_direct(dict(cfg), default=lambda a: (a * 13 + 5) & 0x7FFF)
+    if cfg["family"] == "ET":
+        sim.set(35184, cfg.get("battery_mode", 1))
+    fault = _ExcAt(siminv.responder_for(inv, sim), k, code)
+    siminv.attach_direct(inv, fault)
+    run_sync(inv.read_device_info())
+    from goodwe.exceptions import InverterError
+    before = None
+    for _ in range(3):     # settles the ILLEGAL DATA ADDRESS fallbacks of this configuration (the double meter fallback fails one poll)
+        try:
+            before = set(run_sync(inv.read_runtime_data()))
+        except InverterError:
+            pass
+    if before is None:
+        raise harness.HarnessError("configuration never settles: %r" % (cfg,))
+    fault.n = 0
+    want, verbatim = expected_reason(code)
+    fam = cfg["family"]
+    try:
+        run_sync(inv.read_runtime_data())
+    except RequestRejectedException as ex:
+        ok = (ex.message == want) if verbatim else rw.normalise_reason(str(ex.message)) == rw.normalise_reason(want)
+        if not ok:
+            return [("C08|api|%s|reason" % fam, "poll request %d answered with code %d: message %r, expected %r" % (k, code, ex.message, want), case)]
+    except Exception as ex:
+        return [("C08|api|%s|other-exception|%s" % (fam, type(ex).__name__), "poll request %d answered with code %d: %r" % (k, code, ex), case)]
+    else:
+        if fault.n > k:     # the exception frame was really sent
+            return [("C08|api|%s|exception-swallowed" % fam, "poll request %d was answered with exception code %d (%s) but read_runtime_data() "
+                     "returned normally" % (k, code, want), case)]
+        return []
+    fault.n = None
+    after = set(run_sync(inv.read_runtime_data()))
+    if after != before:
+        return [("C08|api|%s|capability-changed" % fam, "after a poll whose request %d was rejected with code %d (%s) the inverter object reports "
+                 "other keys: lost %s, new %s" % (k, code, want, sorted(before - after)[:4], sorted(after - before)[:4]), case)]
+    return []
+
+
+def api_job(job):
+    part, parts = job
+    acc = Acc()
+    i = 0
+    for cfg in API_CFGS:
+        for k in range(0, 7):
+            for code in (1, 3, 4, 5, 6, 7, 8, 10, 11, 0, 200):
+                i += 1
+                if i % parts != part:
+                    continue
+                case = {"api_poll": True, "cfg": cfg, "k": k, "code": code}
+                for key, msg, c in api_case(acc, case):
+                    acc.fail(key, msg, c)
+                if len(acc.samples) < 1:
+                    acc.sample(case)
+    return acc
+
+
 def run(ctx):
+    ctx.shard(api_job, [(p, 16) for p in range(16)], "inverter classes: request k of a poll answered with exception code != 2 (must surface, must not disable a block)")
     table_checks(ctx.acc)
     jobs = []
     for transport in ("udp", "tcp"):
@@ -204,6 +303,10 @@ def run(ctx):
 
 
 def replay(ctx, case):
+    if case.get("api_poll"):
+        for key, msg, c in api_case(ctx.acc, case):
+            ctx.acc.fail(key, msg, c)
+        return
     if case.get("table"):
         table_checks(ctx.acc)
     else:
